@@ -858,6 +858,53 @@ def process_contracts():
     return [get_results(), do_global_iteration(), solve(), problem_calculate_wrapper(), do_local_refinement()]
 
 
+# ----------------------------------------------------------------------------- establishment (base case of the history induction)
+def sd_init_full():
+    """SearchData.__init__ with the ghost container state (C19's contract) AND the Solution facts (C12's contract)"""
+    GQ = csd.GQ
+    return Contract(F_SD, "SearchData.__init__", params={"problem": "ref:Problem", "maxlen": "int"}, result="none",
+                    modifies=["obj(self)"], requires=["maxlen >= 0"],
+                    ghost_exit=["self.gn = 0", "self.gseq = empty_seq('SearchDataItem')", "self.gpos = empty_seq('int')"],
+                    ensures=["self.gn == 0 and fresh(self._allTrials) and vlen(self._allTrials) == 0 and "
+                             "self._SearchData__firstDataItem is None",
+                             "fresh(self._RGlobalQueue) and fresh(%s) and %s.glen == 0 and %s.maxlen == maxlen and depq_ok(%s)"
+                             % (GQ, GQ, GQ, GQ),
+                             "fresh(self.solution) and self.solution.problem is problem",
+                             "fresh(self.solution.bestTrials) and vlen(self.solution.bestTrials) == 1",
+                             "self.solution.numberOfGlobalTrials == 0 and self.solution.numberOfLocalTrials == 0"],
+                    doc="a new container: no items, an empty queue with the requested bound, a fresh Solution with zero counters")
+
+
+def solver_establish():
+    """Solver.__init__ establishes what Process.Solve / DoGlobalIteration require of a solver that has not started: the
+    base case of 'after any number of iterations'.  Hypotheses on the user's inputs (configuration scope of the method
+    layer): one objective, no constraints, N >= 1, r > 1, finite r and eps."""
+    pr = "self.process"
+    post = [c.replace("self.", pr + ".") for c in P_BASE + p_state()]
+    return Contract(F_SOLVER, "Solver.__init__", params={"problem": "ref:Problem", "parameters": "ref:SolverParameters"},
+                    result="none", modifies=["obj(self)"],
+                    setup=["problem.numberOfObjectives = 1", "problem.numberOfConstraints = 0"],
+                    requires=["problem.numberOfObjectives == 1 and problem.numberOfConstraints == 0",
+                              "problem.numberOfFloatVariables >= 1",
+                              "problem.lowerBoundOfFloatVariables is not None and problem.upperBoundOfFloatVariables is not None",
+                              "parameters.r > 1 and finite(parameters.r) and finite(parameters.eps)", "world().gtn >= 0"],
+                    ensures=["fresh(self.process) and %s._Process__first_iteration == True" % pr,
+                             "%s._Process__listeners is self._Solver__listeners and vlen(self._Solver__listeners) == 0" % pr] + post,
+                    doc="base case: a freshly constructed solver satisfies the pre-condition of its first Solve / "
+                        "DoGlobalIteration (empty container, unbounded empty queue, M = 1, z* = +inf, recalc set, zero counters)")
+
+
+def establishment_tasks():
+    """(contract, callee contracts) pairs"""
+    from contracts import core as cc
+    depq = csd.depq_contracts()
+    cq = csd.cq_contracts()
+    sd = sd_init_full()
+    t1 = (sd, [cc.solution_init()] + cq + depq)
+    t2 = (solver_establish(), [sd, cc.evolvent_init_sym(), cc.optimization_task_init(), cc.method_init(), cc.process_init()])
+    return [t1, t2]
+
+
 def process_loop_specs():
     return {(F_PROC, "Process.DoGlobalIteration", 0): dgi_loop(),
             (F_PROC, "Process.DoGlobalIteration", 1): listener_loop(1, MT, "None", n0="gb0"),
